@@ -176,8 +176,34 @@ def guarded_by(cfg, target, edge_pred, *, start=None, exc='*', weak=False):
 def test_edge(pred):
     """Edge predicate: edge leaves a test node and pred(test_ast, 'T'/'F') holds."""
     def f(e):
-        return e.src.kind == 'test' and e.kind in ('T', 'F') and pred(e.src.ast, e.kind)
+        if not (e.src.kind == 'test' and e.kind in ('T', 'F')):
+            return False
+        if pred(e.src.ast, e.kind):
+            return True
+        # a flag (`drained = not self._buffer … if drained: … if drained:`): its edges assert what the test it was bound to asserted when it was evaluated
+        if e.src.flag is not None and e.src.cfg is not None:
+            return any(pred(t, pol) for t, pol in _atoms(e.src.cfg.flag_defs.get(e.src.flag), e.kind))
+        return False
     return f
+
+
+def _atoms(t, pol, depth=0):
+    """The test atoms (expression, polarity) that are known when test *t* came out *pol*: a conjunction that is true (a disjunction that is false) gives all
+    its parts; `not` flips; `bool(x)` is x."""
+    if t is None or depth > 4:
+        return
+    if isinstance(t, ast.Call) and isinstance(t.func, ast.Name) and t.func.id == 'bool' and len(t.args) == 1 and not t.keywords:
+        yield from _atoms(t.args[0], pol, depth + 1)
+        return
+    if isinstance(t, ast.UnaryOp) and isinstance(t.op, ast.Not):
+        yield from _atoms(t.operand, 'F' if pol == 'T' else 'T', depth + 1)
+        return
+    if isinstance(t, ast.BoolOp):
+        if (isinstance(t.op, ast.And) and pol == 'T') or (isinstance(t.op, ast.Or) and pol == 'F'):
+            for v in t.values:
+                yield from _atoms(v, pol, depth + 1)
+        return
+    yield t, pol
 
 
 def path_lines(path, start=None):
